@@ -279,6 +279,18 @@ def ex_filter(ctx, ev, statements, seed=0):
     if statements:
         expect(got_rows(ctor_filters), "constructor filters= then filter()")
 
+    # an explicitly empty statement list keeps every event - also on a catalog that remembers statements from its constructor or from an
+    # earlier filter(S, in_place=False) (remembered statements are what filter() WITHOUT an argument applies)
+    if statements:
+        all_rows = canon_rows(rows)
+        for lab, fn_ in (("constructor filters=S then filter([])", lambda: mk(ev, filters=list(statements)).filter([] if seed % 2 else (), in_place=bool(seed % 3))),
+                         ("filter(S, in_place=False) then filter([]) on the source", lambda: (lambda c: (c.filter(list(statements), in_place=False), c.filter(() if seed % 2 else []))[1])(mk(ev)))):
+            got_e = got_rows(fn_)
+            ctx.mon("history:order/grouping/idempotence", 1)
+            if got_e is not None and canon_rows(got_e) != all_rows:
+                ctx.violate("an explicitly empty statement list does not keep every event on a catalog that remembers other statements", rc,
+                            observed={"kept": len(got_e)}, expected={"kept": len(all_rows)}, tags=dict(tags, history=lab))
+
     def reassign_then_same():
         c = mk(ev)
         c.filter(list(statements))
